@@ -40,8 +40,10 @@ __all__ = ["get_output_graph_data", "visualise_graphs"]
 #######################################################################################################
 
 
-def get_output_graph_data(zone: Zone, graph_sets: dict = {}) -> dict:
+def get_output_graph_data(zone: Zone, graph_sets: dict = None) -> dict:
     """Returns Json data points for each process."""
+    if graph_sets is None:
+        graph_sets = {}
     for key, t in zone.targets.items():
         graph_sets[key] = _create_graph_set(t, key)
 
